@@ -88,6 +88,12 @@ pub async fn a_std_result(a: u32) -> std::result::Result<u64, String> { body_res
 #[cache_async(limit = 8, cache_if = keep)]
 pub async fn a_cache_if(a: u32, b: String) -> u64 { body2(a, b) }
 
+#[cache_async(limit = 8, cache_if = keep_res)]
+pub async fn a_cache_if_result(a: u32) -> Result<u64, String> { body_res(a) }
+
+#[cache_async(limit = 8, max_memory = "1MB")]
+pub async fn a_result_mem(a: u32) -> Result<u64, String> { body_res(a) }
+
 #[cache_async(limit = 8, invalidate_on = stale)]
 pub async fn a_invalidate_on(a: u32, b: String) -> u64 { body2(a, b) }
 
